@@ -289,7 +289,11 @@ def _pyeval_work(batch):
         except RecursionError:
             real = "SKIP"
         names = [o if isinstance(o, str) else o[0] for o in ops]
-        out.append({"ops": sx(ops), "real": real,
+        try:
+            rvm = vmlib.real_vm_run(d)
+        except RecursionError:
+            rvm = "RENDER-ERR"
+        out.append({"ops": sx(ops), "real": real, "rvm": rvm,
                     "data_only": all(n in DATA_OPS for n in names)})
     return out
 
@@ -318,12 +322,17 @@ def correspond_pyeval(chk, datas):
     out = Driver().query(lines)
     mism = []
     st = {"compared": 0, "agree-OK": 0, "agree-OK-with-events": 0, "agree-ERR": 0, "model-declined": 0,
-          "real-skipped": 0, "data-only-theorem-instances": 0}
+          "real-skipped": 0, "data-only-theorem-instances": 0, "refvm-model-differs(skipped)": 0}
     for j, i in enumerate(idx):
         r = reals[i]
         m, mvm, real = out[2 * j], out[2 * j + 1], r["real"]
         if real in ("SKIP", "RENDER-ERR", "PARSE-ERR"):
             st["real-skipped"] += 1
+            continue
+        if mvm.startswith("OK ") and r["rvm"].startswith("OK ") and mvm != r["rvm"]:
+            # the shared value model (RefVM / ShowVM) is itself off on this input (e.g. a set holding both
+            # 1 and True): that is reported by the existing RefVM correspondence, not a fact about PyEval
+            st["refvm-model-differs(skipped)"] += 1
             continue
         if m.startswith("OK "):
             st["compared"] += 1
